@@ -1145,8 +1145,62 @@ def rule_link(out):
 # dispatch
 # ----------------------------------------------------------------------------------
 
+
+# ----------------------------------------------------------------------------------
+# PN2: an untagged union is dispatched on the exact JSON type. The generator hands each case the list
+# of Python types its JSON kinds parse into ([bool], [int, float], [str], [list], [dict]); because
+# `bool` is a subclass of `int`, an isinstance() dispatch sends true/false to the number case.
+# ----------------------------------------------------------------------------------
+
+def rule_union_dispatch(out):
+    rid = "PN2"
+    out.rule(rid, "_ndjson.py UnionConverter: the case of an untagged union is selected by the exact type of the JSON value (`type(json_object)` as the key / compared "
+                  "by identity), never by isinstance() against the candidate types (isinstance(True, int) holds, so [int, bool] unions would lose their case)", 2)
+    tree, rel = parse_py(out, "_ndjson.py")
+    cls = classes(tree).get("UnionConverter")
+    if cls is None:
+        out.undecided(rid, "anchor/UnionConverter", rel, "class not found")
+        return
+    ms = methods(cls)
+    for mname in ("from_json", "from_json_to_numpy"):
+        fn = ms.get(mname)
+        if fn is None:
+            out.undecided(rid, "UnionConverter.%s" % mname, rel, "method not found")
+            continue
+        param = fn.args.args[1].arg if len(fn.args.args) > 1 else None
+        # helper methods of the class that receive the value are looked into as well
+        todo, seen, uses_type, bad = [fn], set(), False, None
+        delegated = False
+        while todo:
+            f = todo.pop()
+            if f.name in seen:
+                continue
+            seen.add(f.name)
+            prm = f.args.args[1].arg if len(f.args.args) > 1 else None
+            for n in ast.walk(f):
+                if isinstance(n, ast.Call) and isinstance(n.func, ast.Name) and n.func.id == "type" and n.args and isinstance(n.args[0], ast.Name) and n.args[0].id == prm:
+                    uses_type = True
+                if isinstance(n, ast.Call) and isinstance(n.func, ast.Name) and n.func.id == "isinstance" and len(n.args) == 2 and \
+                        isinstance(n.args[0], ast.Name) and n.args[0].id == prm:
+                    second = n.args[1]
+                    # a fixed structural assertion (the tagged form is a dict) is not a dispatch
+                    if not (isinstance(second, ast.Name) and second.id in ("dict", "Mapping")):
+                        bad = n
+                if isinstance(n, ast.Call) and isinstance(n.func, ast.Attribute) and isinstance(n.func.value, ast.Name) and n.func.value.id == "self" and \
+                        n.func.attr in ms and any(isinstance(a, ast.Name) and a.id == prm for a in n.args):
+                    todo.append(ms[n.func.attr])
+                    if n.func.attr in ("from_json",) and f is fn and mname != "from_json":
+                        delegated = True
+        key = "UnionConverter.%s/untagged dispatch" % mname
+        if bad is not None:
+            out.bad(rid, key, pos(rel, bad), "the case is chosen with isinstance(%s, …) against candidate types: a JSON boolean also satisfies the number case (bool is a subclass of int), so the active case of an [int, bool] union is lost on reading" % param)
+        elif uses_type or delegated:
+            out.ok(rid, key, pos(rel, fn), "dispatch on type(%s)" % param)
+        else:
+            out.undecided(rid, key, pos(rel, fn), "cannot find how the untagged case is selected")
+
 RULES = {
-    "C02": [rule_json_kinds, rule_ndjson_sentinel],
+    "C02": [rule_json_kinds, rule_ndjson_sentinel, rule_union_dispatch],
     "C03": [rule_link, rule_py_wire_table, rule_py_capacity, rule_py_no_alias],
     "C08": [rule_link],
     "C15": [rule_py_headers],
